@@ -93,11 +93,16 @@ class World:
         touches); every other bit keeps its snapshot value"""
         acc = self.spa.accessors
         items = list(self.base)
+        # background of the shared bytes: as in the snapshot, or every sibling bit set
+        ones = bool(self.sx.choice("sibling_bits_all_ones", 2))
         for k in keys:
             if k not in acc:
                 continue
             a = acc[k]
             rec = refmodel.record_of(a)
+            if ones and rec["bitpos"] is not None:
+                for j in range(a.length):
+                    items[a.pos + j] = 255
             v = self.sx.int_(f"state_{k}", 0, (rec["mask"] if rec["bitpos"] is not None else (1 << (8 * rec["size"])) - 1))
             fe.set_item(items, a, v)
         self.block0 = fe.block_from_items(items)
